@@ -1252,3 +1252,12 @@ v("P-client-conditional-expression-return", [], {"C19": "ok"}, base="rf9")
 v("client-returns-command-unless-none", [(CLI, "        return cmd or None  # will be None if `cmd` is an empty string\n", "        return cmd if cmd is not None else None\n")], {"C19": "R19.11"})
 v("P-shared-call-and-await-helper", [], {"C02": "ok", "C03": "ok", "C05": "ok", "C08": "ok"}, base="rf80")
 v("shared-helper-awaits-by-result", [(_HLP, "    if iscoroutinefunction(function):\n        return await cast(Awaitable[_R], function(*args, **kwargs))\n    return cast(_R, function(*args, **kwargs))\n", "    out = function(*args, **kwargs)\n    if hasattr(out, \"__await__\"):\n        out = await out\n    return cast(_R, out)\n")], {"C03": "viol", "C02": "viol"}, base="rf80")
+# round 19: boundaries
+v("close-returns-early-for-an-empty-pool", [(P, "        self.lock()\n        # A meta task cancelled before it ever ran", "        self.lock()\n        if not (self._tasks_running or self._tasks_ended or self._tasks_cancelled or self._group_meta_tasks_running or self._meta_tasks_cancelled):\n            return\n        # A meta task cancelled before it ever ran")], {"C08": "R08.1", "C09": "R09.8"})
+# (behaviour-preserving, but the order rule does not reason about emptiness guards: it reports the _closed.set() that no wait dominates - a stated limit, see DESIGN.md section 13, round 19)
+v("close-sets-closed-early-for-an-empty-pool", [(P, "        self.lock()\n        # A meta task cancelled before it ever ran", "        self.lock()\n        if not (self._tasks_running or self._tasks_ended or self._tasks_cancelled or self._group_meta_tasks_running or self._meta_tasks_cancelled):\n            self._closed.set()\n            return\n        # A meta task cancelled before it ever ran")], {"C09": "any"})
+v("group-helper-loop-bounded-by-a-count", [(P, "        while group_reg:\n            try:\n                self._tasks_running[group_reg.pop()].cancel(**cancel_kw)", "        for _ in range(len(group_reg)):\n            try:\n                self._tasks_running[group_reg.pop()].cancel(**cancel_kw)")], {"C07": "R07.2", "C10": "R10.10"})
+v("setter-subtracts-occupancy-unclamped", [(P, "        self._enough_room._value = value\n", "        self._enough_room._value = value - len(self._tasks_running)\n")], {"C01": "R01.7"})
+v("P-setter-subtracts-occupancy-clamped", [(P, "        self._enough_room._value = value\n", "        self._enough_room._value = max(0, value - len(self._tasks_running))\n")], {"C01": "any"})
+v("consumer-clamps-num-concurrent", [(P, "        semaphore = Semaphore(num_concurrent)\n", "        num_concurrent = min(num_concurrent, 64)\n        semaphore = Semaphore(num_concurrent)\n")], {"C05": "R05.3"})
+v("apply-spawner-fast-path-outside-the-loop", [(P, "        if kwargs is None:\n            kwargs = {}\n        for i in range(num):", "        if kwargs is None:\n            kwargs = {}\n        if num == 1:\n            coroutine = func(*args, **kwargs)\n            await self._start_task(coroutine, group_name=group_name, end_callback=end_callback, cancel_callback=cancel_callback)\n            return\n        for i in range(num):")], {"C04": "R04.1", "C12": "R12.3"})
